@@ -984,3 +984,51 @@ fn write_evidence(
     let path = dir.join(format!("{}.json", check.id));
     std::fs::write(&path, serde_json::to_string_pretty(&ev).unwrap()).expect("cannot write evidence file");
 }
+
+// ---------------------------------------------------------------------------
+// coverage-guided driver: the same decoders and oracles behind a libFuzzer entry point
+
+/// One part of a check, driven by raw fuzzer bytes (`harness/fuzz`). Every byte becomes one tape word,
+/// so libFuzzer's byte-level mutations are choice-level mutations of the structured case.
+pub struct FuzzDriver {
+    check: Check,
+    part: usize,
+    ctx: Ctx,
+    root: PathBuf,
+    tape_len: usize,
+}
+
+impl FuzzDriver {
+    pub fn new(check: Check, part_name: &str) -> FuzzDriver {
+        let root = verif_root();
+        let known = Known::load(&root);
+        let part = check.parts.iter().position(|p| p.name() == part_name).unwrap_or_else(|| panic!("no part {part_name} in {}", check.id));
+        let tape_len = check.parts[part].budget(Tier::Thorough).tape_len;
+        let ctx = Ctx::new(check.id, Tier::Thorough, 0, known);
+        FuzzDriver { check, part, ctx, root, tape_len }
+    }
+
+    /// Runs one input; on a violation writes the replay file, prints the VIOLATION line and aborts
+    /// (so that libFuzzer keeps the input as a crash artifact as well).
+    pub fn one(&mut self, data: &[u8]) {
+        let mut words = crate::tape::words_from_bytes(data);
+        words.truncate(self.tape_len);
+        let part = &self.check.parts[self.part];
+        if let Verdict::Fail(f) = part.run_tape(&words, &mut self.ctx) {
+            let v = Violation {
+                part: part.name(),
+                case: part.case_json(&words),
+                tape: Some(words),
+                failure: f,
+                seed: 0,
+            };
+            let path = write_failure(&self.root, self.check.id, &v);
+            println!("failure: part={} signature={}", v.part, v.failure.signature);
+            println!("message: {}", v.failure.message);
+            println!("VIOLATION property={} replay={}", self.check.id, path.display());
+            use std::io::Write;
+            let _ = std::io::stdout().flush();
+            std::process::abort();
+        }
+    }
+}
